@@ -15,7 +15,7 @@ import (
 type C01Params struct {
 	N      int      // modules m0..m(N-1)
 	Deps   [][2]int // (i, j): mi depends on mj, j < i
-	Fault  string   // "", or "<module>:<phase>:<err|panic>", phase in prep,start,stop
+	Fault  string   // "", or "<module>:<phase>:<err|panic>", phase in prep,start,stop; several faults joined with "+"
 	Mgmt   bool     // module management enabled
 	Rounds []int    // bit masks of enabled modules: Rounds[0] before Start, each further one followed by ManageModules
 	Pts    int      // interior points of start/stop callbacks
@@ -62,15 +62,19 @@ func (s *c01state) fault(idx int, phase string) error {
 	if s.p.Fault == "" {
 		return nil
 	}
-	parts := strings.Split(s.p.Fault, ":")
-	if parts[0] != fmt.Sprint(idx) || parts[1] != phase {
-		return nil
+	// several faults are joined with "+"
+	for _, f := range strings.Split(s.p.Fault, "+") {
+		parts := strings.Split(f, ":")
+		if parts[0] != fmt.Sprint(idx) || parts[1] != phase {
+			continue
+		}
+		s.faultHit = true
+		if parts[2] == "panic" {
+			panic("seeded panic in " + phase)
+		}
+		return errors.New("seeded failure in " + phase)
 	}
-	s.faultHit = true
-	if parts[2] == "panic" {
-		panic("seeded panic in " + phase)
-	}
-	return errors.New("seeded failure in " + phase)
+	return nil
 }
 
 // VerifC01 builds the scenario.
